@@ -39,12 +39,28 @@ def cases(tier, seed):
     for rep in range(reps):
         for name in zoo.DETERMINISTIC:
             g = zoo.build(name, 0)
-            for t in g["evals"] + ["derived:" + d for d in g["derived"]]:
+            # every density also alone inside a joint: a joint trusts the sample shape its component declares
+            solo = ["jointof:" + e for e in g["evals"] if e not in ("joint", "inner")] if rep % 3 == 1 else []
+            for t in g["evals"] + ["derived:" + d for d in g["derived"]] + solo:
                 mode = ["all", "one", "subset", "all", "subset"][rep % 5]
                 shape = [int(rng.integers(1, 6))] if rng.random() < 0.6 else [int(rng.integers(1, 5)), int(rng.integers(1, 5))]
                 if rep == 0:
                     mode, shape = "all", [int(rng.choice([2, 3, 4]))]
                 out.append({"graph": name, "target": t, "mode": mode, "shape": shape, "seed": int(rng.integers(2**31))})
+    # deterministic sweep (the same in every run and for every seed): every density alone inside a joint, with each single
+    # parameter - and the parameters of the tree together - carrying the sample dimension on its own
+    for name in zoo.DETERMINISTIC:
+        g = zoo.build(name, 0)
+        ids = [i for i in g["leaves"] if i != "mvn.tril.unres"]
+        groups = [[i] for i in ids]
+        treeg = [i for i in ids if i.startswith("tree.")]
+        if len(treeg) > 1:
+            groups.append(treeg)
+        for e in g["evals"]:
+            if e in ("joint", "inner"):
+                continue
+            for grp in groups:
+                out.append({"graph": name, "target": "jointof:" + e, "mode": "given", "chosen": grp, "shape": [2], "seed": 12345})
     return out
 
 
@@ -65,13 +81,24 @@ def with_values(spec, values):
     return s
 
 
+def target_object(dic, t):
+    if t.startswith("jointof:"):
+        jid = "__joint_of__" + t[8:]
+        if jid not in dic:
+            from torchtree.core.utils import process_object
+
+            process_object({"id": jid, "type": "JointDistributionModel", "distributions": [t[8:]]}, dic)
+        return dic[jid]
+    return dic[t]
+
+
 def get_target(dic, t):
     if t.startswith("derived:"):
         return tt.as_np(dic[t[8:]].tensor, "C10:not-a-tensor:" + t)
-    return tt.as_np(dic[t](), "C10:not-a-tensor:" + t)
+    return tt.as_np(target_object(dic, t)(), "C10:not-a-tensor:" + t)
 
 
-def inconsistent_components(model):
+def inconsistent_components(model, sshape=None):
     """classes of the (nested) components of a joint whose returned value has more leading dimensions than the sample
     shape they declare"""
     out = set()
@@ -80,7 +107,7 @@ def inconsistent_components(model):
         return []
     for c in cont.callables():
         if getattr(c, "_distributions", None) is not None:
-            out.update(inconsistent_components(c))
+            out.update(inconsistent_components(c, sshape))
             continue
         try:
             lp = c()
@@ -89,6 +116,9 @@ def inconsistent_components(model):
             continue
         full_event = type(c).__name__ == "MultivariateNormal"  # log_prob has no event dimension left
         if lp.dim() > len(ss) + 1 or tuple(lp.shape[: len(ss)]) != ss or (full_event and tuple(lp.shape) != ss):
+            out.add(type(c).__name__)
+        elif sshape is not None and ss != tuple(sshape) and tuple(lp.shape[: len(sshape)]) == tuple(sshape) and len(ss) < len(sshape):
+            # the value carries the batch's sample dimensions in front, the declared sample shape does not
             out.add(type(c).__name__)
     return sorted(out)
 
@@ -106,7 +136,9 @@ def run_case(case):
         # TrilExpDiagonalTransform declines batched input already while the specification is loaded; it is
         # batched only when the multivariate normal itself is the target
         ids = [i for i in ids if i != "mvn.tril.unres"]
-    if case["mode"] == "all":
+    if case["mode"] == "given":
+        chosen = list(case["chosen"])
+    elif case["mode"] == "all":
         chosen = ids
     elif case["mode"] == "one":
         chosen = [str(rng.choice(ids))]
@@ -169,7 +201,7 @@ def run_case(case):
             V.append(tt.viol("C10:shape:%s:%s" % (gname, t), "%s/%s with %s batched %s: result has shape %s, slices have shape %s" % (gname, t, "+".join(chosen) if len(chosen) <= 3 else "%d parameters" % len(chosen), list(sshape), vb.shape, vs.shape), **detail))
             break
         if not np.allclose(got, exp, rtol=1e-10, atol=1e-12, equal_nan=True):
-            culprits = inconsistent_components(dicb[t]) if not t.startswith("derived:") else []
+            culprits = inconsistent_components(target_object(dicb, t), sshape if t.startswith("jointof:") else None) if not t.startswith("derived:") else []
             for culprit in culprits:
                 # mechanism: the joint adds up a component over all samples because that component's declared
                 # sample shape ignores the batch dimension of one of its own (hyper-)parameters
